@@ -78,6 +78,11 @@ Print Assumptions C12_gate_partial.
      DPythonRejects   : the body does not run, Python's TypeError (a parameter without default gets no value);
      DBody b          : (every name that reaches the function is a parameter of it, or it takes **kwargs) the body
                         runs and sees exactly b, name by name.
+   names_fit in the DBody case: when a name that is no parameter of the function reaches a function without **kwargs (a surplus
+   keyword under strict=False, a Parameter the function does not have), spec_outcome's DBody lists that name among the
+   values to hand over, but Python rejects the call (TypeError) - there DBody does NOT describe the run and no theorem uses
+   it; the harness judges that region separately (TypeError expected in every return_as mode; open finding C13-K2 for
+   KWARGS_WITHOUT_NONE).  The DRaise and DPythonRejects cases need no such premise.
    In particular: a value the caller supplies for a declared name reaches the body as the chain output, never as
    the signature default; an implementation that preferred defaults or dropped supplied values would not do. *)
 Theorem C12_run_meets_spec : forall value is_none sg env dc c is_async,
